@@ -473,6 +473,17 @@ def run_auth(case):
             final = cmd(b'AUTH FOOBAR' + (b' ' + b64(b'x').encode() if shape == 'initial' else b''))
         elif shape == 'badb64':
             final = cmd(b'AUTH ' + mech.encode() + b' !!!not*base64!!!')
+        elif shape == 'noisyb64':
+            # characters outside the base64 alphabet inside an otherwise complete response: a malformed line, not credentials
+            good = b64(plain_msg if mech == 'PLAIN' else enc(authcid))
+            noisy = (good[:4] + '!' + good[4:8] + '@' + good[8:]).encode()
+            if mech == 'CRAM-MD5':
+                r = cmd(b'AUTH CRAM-MD5')
+                final = cmd(noisy) if r is not None and r[0] == '334' else r
+            else:
+                final = cmd(b'AUTH ' + mech.encode() + b' ' + noisy)
+                if mech == 'LOGIN' and final is not None and final[0] == '334':
+                    final = cmd(b64(enc(secret)).encode())
         elif shape == 'equals':
             final = cmd(b'AUTH ' + mech.encode() + b' =')
         elif shape == 'badutf8':
@@ -722,7 +733,7 @@ CREDS = [('user', 'pass', ''), ('user', 'pass', 'admin'), ('üser@exämple.com',
 def auth_table():
     for tls in ('none', 'starttls', 'immediate'):
         for mech in ('PLAIN', 'LOGIN', 'CRAM-MD5', 'UNKNOWN'):
-            for shape in ('initial', 'challenge', 'cancel', 'badb64', 'equals', 'noarg', 'badutf8', 'badutf8-challenge'):
+            for shape in ('initial', 'challenge', 'cancel', 'badb64', 'noisyb64', 'equals', 'noarg', 'badutf8', 'badutf8-challenge'):
                 if mech == 'CRAM-MD5' and shape in ('initial',):
                     continue
                 if mech == 'UNKNOWN' and shape not in ('initial', 'challenge'):
@@ -786,7 +797,7 @@ def replay(case):
     try:
         if fam == 'auth':
             if case['tls'] not in ('none', 'starttls', 'immediate') or case['mech'] not in ('PLAIN', 'LOGIN', 'CRAM-MD5', 'UNKNOWN') \
-                    or case['shape'] not in ('initial', 'challenge', 'cancel', 'badb64', 'equals', 'noarg', 'badutf8', 'badutf8-challenge') \
+                    or case['shape'] not in ('initial', 'challenge', 'cancel', 'badb64', 'noisyb64', 'equals', 'noarg', 'badutf8', 'badutf8-challenge') \
                     or case['position'] not in ('normal', 'before-ehlo', 'after-refused-ehlo', 'after-success', 'after-success-reehlo', 'in-transaction'):
                 return None            # not a case this check generates: cannot be replayed
             case = dict(case, creds=[str(x) for x in case['creds']][:3])
